@@ -293,6 +293,7 @@ def configs(tier):
     sub = [c for c in out if c['M'] == out[0]['M'] and c['P'] == 8 and c['r'] in (2, 3) and c['nb'] == 2 and c['bits'] == 8]
     out += [dict(c, window=w) for c in sub for w in ('hann', 'boxcar')]
     out += [dict(c, noise=2.0 ** -40, level=0.6 * 2.0 ** -40) for c in sub]
+    out += [dict(c, noise2=True) for c in sub]          # two noise sources per stream
     return out
 
 
